@@ -16,13 +16,13 @@ import (
 func init() { Registry["C13"] = C13 }
 
 var pckOIDs = map[string]string{
-	"OidSgxExtension": "1,2,840,113741,1,13,1",
-	"OidPPID":         "1,2,840,113741,1,13,1,1",
-	"OidTCB":          "1,2,840,113741,1,13,1,2",
-	"OidPCESvn":       "1,2,840,113741,1,13,1,2,17",
-	"OidCPUSvn":       "1,2,840,113741,1,13,1,2,18",
-	"OidPCEID":        "1,2,840,113741,1,13,1,3",
-	"OidFMSPC":        "1,2,840,113741,1,13,1,4",
+	"OidSgxExtension":          "1,2,840,113741,1,13,1",
+	"OidPPID":                  "1,2,840,113741,1,13,1,1",
+	"OidTCB":                   "1,2,840,113741,1,13,1,2",
+	"OidPCESvn":                "1,2,840,113741,1,13,1,2,17",
+	"OidCPUSvn":                "1,2,840,113741,1,13,1,2,18",
+	"OidPCEID":                 "1,2,840,113741,1,13,1,3",
+	"OidFMSPC":                 "1,2,840,113741,1,13,1,4",
 	"sgxTcbComponentOidPrefix": "1,2,840,113741,1,13,1,2",
 }
 
